@@ -38,11 +38,29 @@ def oracle(case, a):
     return None
 
 
-def run(ctx):
-    tier, seed, model_ok = ctx["tier"], ctx["seed"], ctx["model_ok"]
-    rnd = random.Random(seed)
-    n = 250 if tier == "quick" else 5000
-    cases = []
+def corpus_cases():
+    """recorded histories that contain exactly one ForceBackup followed by a dump (D21, D22)"""
+    out = []
+    for c in t2.load_corpus(with_force=True):
+        idx = [i for i, o in enumerate(c.ops) if o[0] == "forcebackup"]
+        if len(idx) == 1 and idx[0] + 1 < len(c.ops) and c.ops[idx[0] + 1][0] == "dump":
+            wp = t2.world_path(c.cfg, pg.goclean(c.ops[idx[0]][1]))
+            out.append(t2.Case(c.id + "-c17", c.cfg, c.inits, c.ops, meta={"force_index": idx[0], "wp": wp}))
+    return out
+
+
+def gen_cases(tier, rnd, n):
+    cases = corpus_cases()
+    # ForceBackup below a directory created in the same transaction, and after a failed
+    # operation that left a "did not exist" record behind a removed symlink
+    for i, cfg in enumerate(t2.CONFIGS):
+        inits, _ = t2.gen_history(rnd, cfg, nops=1)
+        pfx = t2.view_prefix(cfg)
+        w = lambda v: t2.world_path(cfg, v)
+        nd = b"/nd%d" % i
+        ops = [("dump",), ("mkdir", nd, "755"), ("create", nd + b"/f", "Bnew"), ("forcebackup", nd + b"/f"), ("dump",),
+               ("dump",), ("rollback",)]
+        cases.append(t2.Case("c17-newdir-%d" % i, cfg, inits, ops, meta={"force_index": 3, "wp": w(nd + b"/f")}))
     for i in range(n):
         cfg = t2.CONFIGS[i % len(t2.CONFIGS)]
         inits, ops = t2.gen_history(rnd, cfg, nops=rnd.randint(1, 8))
@@ -87,6 +105,13 @@ def run(ctx):
                 fp = bfsprops.view_of_world(cfg, rnd.choice(via)) + b"/" + wp.rsplit(b"/", 1)[1]
         new_ops = [ops[0]] + pre + [("forcebackup", fp), ("dump",)] + rest + [("dump",), ("rollback",)]
         cases.append(t2.Case("c17-%d" % i, cfg, inits, new_ops, meta={"force_index": 1 + len(pre), "wp": wp}))
+    return cases
+
+
+def run(ctx):
+    tier, seed, model_ok = ctx["tier"], ctx["seed"], ctx["model_ok"]
+    rnd = random.Random(seed)
+    cases = gen_cases(tier, rnd, 250 if tier == "quick" else 5000)
     r = worldrun.run_stream("C17", "forcebackup", cases, model_ok, level=1, oracle=oracle,
                             nontrivial=lambda c, a: any(o[0] == "forcebackup" and a["R"].get(i, ("",))[0] == "ok" for i, o in enumerate(c.ops)),
                             desc="random histories with ForceBackup(p) at a random position, p unmodified / modified / created / removed / never touched at that point, snapshot taken by the harness at that moment; oracle after Rollback: p as in the snapshot, every other path as initially; non-trivial = ForceBackup succeeded")
